@@ -82,6 +82,13 @@ def gen_env(rnd, fast=False, p_mapper=0.45, reuse=None):
         deeper = [c["name"] for c in inners] if inners and rnd.random() < 0.4 else ()
         inners.append(T.gen_class(rnd, fresh("In"), deeper, simple=not deeper and rnd.random() < 0.8,
                                   fast=fast and rnd.random() < 0.9, p_mapper=p_mapper * 0.7))
+    # a class nested two levels down keeps no TO_CAMELCASE / TO_LOWERCASE mapper of its own: the regular
+    # DEserializer stacks such mappers differently at depth 3 than at depth 2 (it cannot read back what the
+    # regular serializer writes there - round trip, property C08, not the subject of this check)
+    used_by_inner = {n for c in inners for n in T_refs(c)}
+    for c in inners:
+        if c["name"] in used_by_inner and c.get("mapper") in ("camel", "upper"):
+            c["mapper"] = None
     name = fresh("K")
     if reuse is not None:
         # the same class NAME for a different declaration (the eligibility verdict is cached per class object)
@@ -95,6 +102,21 @@ def gen_env(rnd, fast=False, p_mapper=0.45, reuse=None):
         if len(c["fields"]) >= 2 and rnd.random() < 0.2:
             c["split"] = rnd.randint(1, len(c["fields"]) - 1)     # written as base class + subclass
     return inners + [outer]
+
+
+def T_refs(c):
+    out = []
+
+    def go(ty):
+        if ty["t"] == "ref":
+            out.append(ty["cls"])
+        elif ty["t"] in ("array", "set"):
+            go(ty["item"])
+        elif ty["t"] == "opt":
+            go(ty["f"])
+    for fd in c["fields"]:
+        go(fd["ty"])
+    return out
 
 
 def oracle_tables_deser(env, doc):
@@ -441,7 +463,9 @@ RAISING = {"unsupported-mapper": "raises:ValueError", "union-without-none": "rai
            "optional-literal-enum": "raises:AttributeError", "enum-by-value": "raises:KeyError",
            "union-enum-first": "raises:KeyError",
            "array-of-serializable": "raises:(TypeError|ValueError|AttributeError)",
-           "optional-unchecked": r"raises:\w+"}
+           "optional-unchecked": r"raises:\w+",
+           # the trusted path processes ANOTHER value than the regular path: any of its failure modes may follow
+           "both-mapped-and-own-key": r"raises:\w+"}
 
 
 def primary(tags, clause):
@@ -455,7 +479,7 @@ def primary(tags, clause):
             if clause.startswith("raises:"):
                 if p in RAISING and re.fullmatch(RAISING[p], clause):
                     return p
-            elif p not in RAISING or p in ("array-of-serializable", "optional-unchecked"):
+            elif p not in RAISING or p in ("array-of-serializable", "optional-unchecked", "both-mapped-and-own-key"):
                 return p
     return "+".join(sorted(tags)) or "safe-fragment"
 
@@ -1171,7 +1195,7 @@ def run(rep, tier):
     stream_from_trusted(rep, rnd, 240 if quick else 2400, model_ok)
     stream_fast(rep, rnd, 300 if quick else 2500, model_ok)
     from harness import c10hist
-    c10hist.stream_fast_hist(rep, rnd, 500 if quick else 5000, (4, 2, 350) if quick else (4, 3, 4000), model_ok, fresh,
+    c10hist.stream_fast_hist(rep, rnd, 500 if quick else 3000, (4, 2, 350) if quick else (4, 3, 2000), model_ok, fresh,
                              eval_bodies)
     if not proofs_ok:
         from harness.props.c17 import broken_build
